@@ -22,6 +22,10 @@ class TestPlugin(OptimizerPlugin):
         raise NotImplementedError
 
     def is_supported(self, method):
+        # like the external optimizer, a plug-in may accept method strings that contain a slash: the first test plug-in
+        # takes "q/rv-a" literally ("q" is never the name of a registered plug-in)
+        if self.i == 1 and method.lower() == "q/rv-a":
+            return True
         if method in EXACT or method.lower() in {e.lower() for e in EXACT}:
             return method in self.names
         return method.lower() in self.names
@@ -49,6 +53,13 @@ def call(fn, builtin_ids):
     if isinstance(r, bool):
         return "true" if r else "false"
     return ident(r, builtin_ids)
+
+
+# names beyond ASCII: letters whose case-folded form is not their lower-case form (sharp s, final sigma); the traces carry
+# the tokens, the managers see the real spellings - two case variants each with the same lower-case form
+REAL = {"w": "Ma\u00df", "W": "MA\u00df", "v": "\u03bf\u03b4\u03bf\u03c2", "V": "\u039f\u0394\u039f\u03a3"}
+TOKEN = {real.lower(): tok.lower() for tok, real in REAL.items()}
+assert all(REAL[t_.upper()].lower() == REAL[t_].lower() for t_ in ("w", "v"))
 
 
 TYPES = ["optimizer", "sampler", "realization_filter", "function_estimator", "plan_handler", "plan_step"]
@@ -89,9 +100,9 @@ def drive(sc):
             if raw == "b1":                         # the name of the first built-in plug-in of this type, in capitals
                 raw = first_builtin.upper()
                 e["raw"], e["rawl"] = raw, first_builtin.lower()
-            e["ret"] = call(lambda: mgr.add_plugin(ptype, raw, plugs[(c["m"] - 1, c["p"])], prioritize=c["prio"]), builtin_ids)
+            e["ret"] = call(lambda: mgr.add_plugin(ptype, REAL.get(raw, raw), plugs[(c["m"] - 1, c["p"])], prioritize=c["prio"]), builtin_ids)
         else:
-            method = (c["plug"] + "/" if c["plug"] else "") + METH[c["meth"]]
+            method = (REAL.get(c["plug"], c["plug"]) + "/" if c["plug"] else "") + METH[c["meth"]]
             if c.get("upper"):
                 method = method.upper() if c["plug"] else method
             if c["op"] == "get":
@@ -101,7 +112,7 @@ def drive(sc):
         trace.append(e)
     def listing(mgr, kind):
         try:
-            return [name for name, _ in mgr.plugins(kind)]
+            return [TOKEN.get(name, name) for name, _ in mgr.plugins(kind)]
         except Exception as exc:  # noqa: BLE001 - an exception while listing is an observation, not a harness failure
             return [f"<{type(exc).__name__} while listing>"]
     for m in (1, 2):
@@ -128,9 +139,9 @@ def extra_scenarios(tier, seed):
     """Longer random histories (spec -> code is exhaustive only up to L)."""
     import random
     rng = random.Random(seed)
-    adds = [("x", 1), ("X", 2), ("y", 2), ("z", 3), ("Z", 1), ("Y", 3)]
+    adds = [("x", 1), ("X", 2), ("y", 2), ("z", 3), ("Z", 1), ("Y", 3), ("w", 1), ("W", 2), ("V", 2), ("v", 1)]
     reqs = [("", "a"), ("", "b"), ("", "c"), ("", "s"), ("", "d"), ("external", "d"), ("", "q"), ("", "k"), ("y", "q"), ("x", "k"), ("x", "q"), ("X", "a"), ("x", "c"), ("y", "b"), ("z", "a"), ("external", "s"), ("external", "t"), ("External", "t"),
-            ("q", "a"), ("Z", "c"), ("scipy", "s"), ("SciPy", "s")]
+            ("q", "a"), ("Z", "c"), ("scipy", "s"), ("SciPy", "s"), ("w", "a"), ("W", "b"), ("W", "a"), ("v", "b"), ("V", "a"), ("v", "a")]
     out = []
     for _ in range(2000 if tier == "quick" else 20000):
         calls = []
